@@ -71,6 +71,10 @@ extern "C" bool stub_isQuasiBasic(Tableau const *, LVRef v) { return tstate[vari
 extern "C" bool stub_isBasic(Tableau const *, LVRef v) { return tstate[varid(v)] == BASIC; }
 extern "C" void stub_basicToQuasi(Tableau *, LVRef v) { if (tstate[varid(v)] != BASIC) g_quasi_error = true; tstate[varid(v)] = QUASI; }
 extern "C" void stub_quasiToBasic(Simplex *, LVRef v) { if (tstate[varid(v)] != QUASI) g_quasi_error = true; tstate[varid(v)] = BASIC; }
+// the buffer of freshly activated bounds is consumed by the simplex, not by the counters: appends are only counted (a std::vector that may
+// reallocate into malloc'ed memory is intractable for CBMC)
+static unsigned n_buffered;
+extern "C" std::pair<LVRef, LABoundRef> * stub_emplace(std::vector<std::pair<LVRef, LABoundRef>> *, LVRef *, LABoundRef *) { n_buffered++; return &abuf[0]; }
 extern "C" void stub_finalize(Simplex * s) { s->bufferOfActivatedBounds._M_impl._M_finish = s->bufferOfActivatedBounds._M_impl._M_start; }
 extern "C" void stub_cap_asgn(vec<PtAsgn> * v, int c) { if (c > v->cap) g_overflow = true; }
 extern "C" void stub_cap_dec(vec<LASolver::DecEl> * v, int c) { if (c > v->cap) g_overflow = true; }
